@@ -3,6 +3,7 @@ package gl
 import (
 	"fmt"
 	"strings"
+	"sync"
 )
 
 // interp.go: big-step evaluator for the emitted GooseLang, following the
@@ -59,6 +60,9 @@ type Program struct {
 	GoNames map[string]bool
 	// StrictCond selects Go's condition-variable semantics in the schedule explorer.
 	StrictCond bool
+
+	reqOnce sync.Once
+	req     map[string]bool
 }
 
 func NewProgram(f *File) *Program {
@@ -371,8 +375,54 @@ func (in *Interp) global(th *Thread, name string, env *Env, scope int) Val {
 		// has (gl/parse_test.go checks the translator's name table against it): Coq finds no such reference
 		stuck("reference %s not found: neither defined in the file nor a GooseLang library name", name)
 	}
+	if i := strings.LastIndex(name, "."); i > 0 {
+		// a qualified name m.X: m is a module the file requires (another translated package, which the model
+		// does not have: unsupported), a module of the GooseLang library, or nothing Coq could resolve
+		mod := name[:i]
+		if !in.Prog.requires()[mod] && !libraryModules()[mod] {
+			stuck("reference %s not found: the file requires no module %s and the GooseLang library has none", name, mod)
+		}
+	}
 	unsupported("unknown global %s", name)
 	return nil
+}
+
+var libModsOnce sync.Once
+var libMods map[string]bool
+
+// libraryModules: the module prefixes of the library names the model implements, plus the FFI and support
+// modules a translated file gets from its prelude.
+func libraryModules() map[string]bool {
+	libModsOnce.Do(func() {
+		libMods = map[string]bool{"FS": true, "util": true, "async_disk": true, "grove_ffi": true, "dist_ffi": true, "kv": true}
+		for n := range prims {
+			if i := strings.LastIndex(n, "."); i > 0 {
+				libMods[n[:i]] = true
+			}
+		}
+		for n := range UnmodelledLibraryNames {
+			if i := strings.LastIndex(n, "."); i > 0 {
+				libMods[n[:i]] = true
+			}
+		}
+	})
+	return libMods
+}
+
+// requires lists the last path component of every `From ... Require` of the file.
+func (p *Program) requires() map[string]bool {
+	p.reqOnce.Do(func() {
+		p.req = map[string]bool{}
+		if p.File != nil {
+			for _, it := range p.File.Items {
+				if it.Kind == "require" {
+					parts := strings.Split(it.Path, ".")
+					p.req[parts[len(parts)-1]] = true
+				}
+			}
+		}
+	})
+	return p.req
 }
 
 func (in *Interp) evalType(th *Thread, e Expr, env *Env, scope int) *Type {
